@@ -38,7 +38,7 @@ RULE = ("complete grid container x dtype x index x column names per detector con
         "distinct = (configuration, data id, cell, entry point)")
 
 INDEX_KINDS = ("range0", "range5", "range-step2", "datetime", "period")
-COLUMN_KINDS = ("default", "strings", "labels")
+COLUMN_KINDS = ("default", "strings", "labels", "rotated-after-fit")
 DTYPES = ("float64", "int64")
 REF = ("df", "float64", "range0", "default")
 ENTRIES = ("fit", "predict", "scores", "transform", "transform_scores", "update")
@@ -63,7 +63,7 @@ def make_index(kind, n):
 def column_names(kind, p):
     if kind == "default":
         return list(range(p))
-    if kind == "strings":
+    if kind in ("strings", "rotated-after-fit"):
         return ["abc"[j] for j in range(p)]
     return ["labels"] + ["bc"[j] for j in range(p - 1)]
 
@@ -77,6 +77,9 @@ def cells(p):
                 if p == 1:
                     out.append(("series", d, i, c))
         out.append(("ndarray2d", d, "range0", "default"))
+        out.append(("ndarray2d-fortran", d, "range0", "default"))       # same values, other memory layouts
+        out.append(("ndarray2d-view", d, "range0", "default"))
+        out.append(("df-blocks", d, "range5", "strings"))                # one block per column (frame assembled column by column)
         if p == 1:
             out.append(("ndarray1d", d, "range0", "default"))
     return out
@@ -92,6 +95,12 @@ def represent(X, cell, rows=None, total=None, restart=False):
     n, p = vals.shape
     if container == "ndarray2d":
         return vals
+    if container == "ndarray2d-fortran":
+        return np.asfortranarray(vals)
+    if container == "ndarray2d-view":                       # every second row / all but the first column of a larger array
+        big = np.full((2 * n + 1, p + 1), 7, dtype=vals.dtype)
+        big[1::2, 1:] = vals
+        return big[1::2, 1:]
     if container == "ndarray1d":
         return vals[:, 0].copy()
     if rows is None:
@@ -99,6 +108,11 @@ def represent(X, cell, rows=None, total=None, restart=False):
     else:
         index = make_index(ik, total)[slice(0, n) if restart else rows]
     names = column_names(ck, p)
+    if container == "df-blocks":
+        df = pd.concat([pd.DataFrame({names[j]: vals[:, j]}, index=index) for j in range(p)], axis=1)
+        if dtype == "int64" and p >= 2:                     # integer and float columns side by side
+            df[names[p - 1]] = df[names[p - 1]].astype(float)
+        return df
     if container == "df":
         return pd.DataFrame(vals, index=index, columns=names)
     name = None if ck == "default" else ("x" if ck == "strings" else "labels")
@@ -106,7 +120,7 @@ def represent(X, cell, rows=None, total=None, restart=False):
 
 
 def cell_index(cell, n):
-    return make_index(cell[2] if cell[0] in ("df", "series") else "range0", n)
+    return make_index(cell[2] if cell[0] in ("df", "df-blocks", "series") else "range0", n)
 
 
 def cell_text(cell):
@@ -243,7 +257,13 @@ def observe(make, X, cell, restart_update=False):
     own_index = cell_index(cell, n)
     obs = {}
     det = make()
-    r = attempt(lambda: det.fit(R))
+    Rfit = R
+    if cell[3] == "rotated-after-fit" and isinstance(R, pd.DataFrame) and R.shape[1] >= 2:
+        # same numbers in the same positions, but the frame given to the calls after fit carries the column labels in another order
+        # (names are labels of the caller's frame, not part of the data: nothing may be matched by them)
+        R = R.copy()
+        R.columns = list(Rfit.columns[1:]) + [Rfit.columns[0]]
+    r = attempt(lambda: det.fit(Rfit))
     obs["fit"] = ("ok", fitted_value(det)) if r[0] == "ok" else r
     if r[0] != "ok":
         for e in ENTRIES[1:]:
